@@ -218,6 +218,15 @@ var wraps = map[string]wrapDef{
 	"index-assign": {nil, false, "", ""}, // let v = ["x", "y"] ; v[1] = E ; v[1]
 	"hash-assign":  {nil, false, "", ""}, // let v = {} ; v["k"] = E ; v["k"]
 	"closure":      {nil, false, "", ""}, // let v = fn() { return E } ; v()
+	// stores into containers supplied from Go whose element type is fixed: a plain string stored into a
+	// []template.HTML is refused or printed as text, never taken for trusted HTML
+	"hsl[0]=E":  {nil, false, "", ""}, // []template.HTML
+	"mh[w]=E":   {nil, false, "", ""}, // map[string]template.HTML
+	"ss[0]=E":   {nil, true, "", ""},  // []string
+	"ms[w]=E":   {nil, true, "", ""},  // map[string]string
+	"si[0]=E":   {nil, false, "", ""}, // []interface{}
+	"mi[w]=E":   {nil, false, "", ""}, // map[string]interface{}
+	"e.SS[0]=E": {nil, true, "", ""},  // []string held in a struct field
 }
 
 var sinks = []string{
@@ -496,6 +505,20 @@ func build(c Case, dropped bool) (src string, partials map[string]string, parts 
 			case "closure":
 				sb.WriteString("<% let " + name + " = fn() { return " + e + " } %>")
 				e = name + "()"
+			case "hsl[0]=E", "ss[0]=E", "si[0]=E", "e.SS[0]=E":
+				if c.Tag == "htmler" && wn == "hsl[0]=E" {
+					return "", nil, nil, "an HTMLer is not a template.HTML"
+				}
+				target := strings.TrimSuffix(wn, "=E")
+				sb.WriteString("<% " + target + " = " + e + " %>")
+				e = target
+			case "mh[w]=E", "ms[w]=E", "mi[w]=E":
+				if c.Tag == "htmler" && wn == "mh[w]=E" {
+					return "", nil, nil, "an HTMLer is not a template.HTML"
+				}
+				target := wn[:2] + "[\"w\"]"
+				sb.WriteString("<% " + target + " = " + e + " %>")
+				e = target
 			default:
 				return "", nil, nil, "unknown wrap"
 			}
@@ -867,6 +890,15 @@ func rejected(r *vk.Run, c Case, res vk.Res) bool {
 		r.Class("helper with template.HTML parameter: other type rejected")
 		return true
 	}
+	// a container whose element type is template.HTML may refuse a plain string
+	if !res.Panicked() && res.Err != nil && (c.Tag == "string" || c.Tag == "raw") {
+		for _, w := range c.Wraps {
+			if w == "hsl[0]=E" || w == "mh[w]=E" {
+				r.Class("typed container of template.HTML: plain string rejected")
+				return true
+			}
+		}
+	}
 	return false
 }
 
@@ -955,7 +987,7 @@ func checkHistory(r *vk.Run, h History) *vk.Fail {
 	return nil
 }
 
-const rule = "payload strings (22 fixed hostile payloads, among them quotes only and a 4.3 kB string with specials at the 64 / 256 / 4096 byte marks; random payloads over the five specials, entity and tag look-alikes, quotes, multi-byte, combining and invalid bytes) x type tag {plain string, template.HTML, HTMLer, raw()} x base (context variable, literal double- and back-quoted, struct / pointer / nested / pointer-in-struct / promoted / embedded / interface-typed field, slice and map of structs, map[string]string, map[string]interface{}, []string / []interface{} / [2]string / [][]string / map[string][]string element, slice and map fields, collections whose element type is template.HTML or an HTMLer, helpers returning string / (string, error) / interface{} / HTML / HTMLer / []string / struct, methods, fields and methods of method results, an HTMLer of string kind / by pointer receiver / that is also a Stringer; and 'weak' bases - *string and *template.HTML variable, pointer-typed field, []*string element, helper returning *string, named string type, wrapper with an Interface() method - for which only 'printed like a value of its tag or not at all, never verbatim' is asserted) x up to 4 wraps (\"\"+E, E+\"\", q+E+r, E+1, E+raw(..), E+trusted variable, lit+E+raw(..), [E][0], [x,E][1], [[E]][0][0], {k:E}[\"k\"], {k:{j:E}}[\"k\"][\"j\"], Go helper, typed Go helper, helper options map, variadic helpers, methods with a parameter, user function, user function with if/return, user function returning an array, closure, parentheses, let, assignment, index assignment, hash-entry assignment) x sink (top, if, else, else-if, loop variable, loop with key, array emitted whole, array with neighbours, function body, function return, block helper, block helper in if, contentFor+contentOf twice, contentOf data, partial data, partial data with layout, nested partial data, if in for in function, let then block, return inside an emitted if, return inside a loop body; seven 'bare' sinks whose block body is exactly one output tag with no text next to it; loop bodies cut short by continue / break / continue inside an if AFTER the output tag, in slice, map and Iterator loops; map and Iterator loop bodies; array + E, nested arrays, one array emitted several times by one tag, also nested, an array returned by a function emitted whole, loop in loop, function calling function, a function's rendered body held in a variable and emitted twice; one block executed twice by its helper, helper argument handed to the block through BlockWith; one block helper / stored block / partial / function / loop body used several times in ONE execution for trusted and untrusted values in turn, also for the SAME text once as raw(E) and once as E; helper calling Render, partial inside contentFor, block helper inside a partial; a helper whose parameter is template.HTML (a plain string may be rejected, never trusted); plush's own debug() helper, whose argument is text) plus whole-collection sinks ([]string, []interface{} emitted whole; for over []string, []interface{}, [2]string, map[string]string, slice of structs, []template.HTML, []HTMLer, map[string]template.HTML, maps and hash literals whose KEY is the payload, an Iterator, [][]string; collections from a field and from helpers emitted whole; mixed trusted / untrusted collections; weak: []named string, []*string). (E) every base x sink with no wrap, every single wrap x sink from a variable, for all fixed payloads and tags; (N) nests: the output tag (bare or with text) inside up to 4 block constructs nested in any order - if, else, slice / map / Iterator loop, function body, block helper, contentFor+contentOf, contentOf default block, partial - each with or without text next to its content: exhaustive to depth 2, random to depth 4 with random bases and wraps; (H) histories: one parsed template (plush.Template executed repeatedly, and plush.Render with the template cache on, which also re-uses parsed partials) executed 2-5 times while the payload's type and text change, every sink x 3 payloads x 5 tag sequences, and random; (R) random compositions to depth 4. Oracle: entity-decoding matcher over the whole output: plain payloads only entity-encoded and decoding back to the payload, trusted payloads byte-identical, each exactly once. Non-trivial = payload contains a special and the route is not the bare variable at top level; distinct by (route, tag, payload); for histories an execution after the first whose payload contains a special."
+const rule = "payload strings (22 fixed hostile payloads, among them quotes only and a 4.3 kB string with specials at the 64 / 256 / 4096 byte marks; random payloads over the five specials, entity and tag look-alikes, quotes, multi-byte, combining and invalid bytes) x type tag {plain string, template.HTML, HTMLer, raw()} x base (context variable, literal double- and back-quoted, struct / pointer / nested / pointer-in-struct / promoted / embedded / interface-typed field, slice and map of structs, map[string]string, map[string]interface{}, []string / []interface{} / [2]string / [][]string / map[string][]string element, slice and map fields, collections whose element type is template.HTML or an HTMLer, helpers returning string / (string, error) / interface{} / HTML / HTMLer / []string / struct, methods, fields and methods of method results, an HTMLer of string kind / by pointer receiver / that is also a Stringer; and 'weak' bases - *string and *template.HTML variable, pointer-typed field, []*string element, helper returning *string, named string type, wrapper with an Interface() method - for which only 'printed like a value of its tag or not at all, never verbatim' is asserted) x up to 4 wraps (\"\"+E, E+\"\", q+E+r, E+1, E+raw(..), E+trusted variable, lit+E+raw(..), [E][0], [x,E][1], [[E]][0][0], {k:E}[\"k\"], {k:{j:E}}[\"k\"][\"j\"], Go helper, typed Go helper, helper options map, variadic helpers, methods with a parameter, user function, user function with if/return, user function returning an array, closure, parentheses, let, assignment, index assignment, hash-entry assignment, stores into containers supplied from Go - []template.HTML, map[string]template.HTML, []string, map[string]string, []interface{}, map[string]interface{}, a []string field - read back afterwards: a plain string may be refused, never trusted) x sink (top, if, else, else-if, loop variable, loop with key, array emitted whole, array with neighbours, function body, function return, block helper, block helper in if, contentFor+contentOf twice, contentOf data, partial data, partial data with layout, nested partial data, if in for in function, let then block, return inside an emitted if, return inside a loop body; seven 'bare' sinks whose block body is exactly one output tag with no text next to it; loop bodies cut short by continue / break / continue inside an if AFTER the output tag, in slice, map and Iterator loops; map and Iterator loop bodies; array + E, nested arrays, one array emitted several times by one tag, also nested, an array returned by a function emitted whole, loop in loop, function calling function, a function's rendered body held in a variable and emitted twice; one block executed twice by its helper, helper argument handed to the block through BlockWith; one block helper / stored block / partial / function / loop body used several times in ONE execution for trusted and untrusted values in turn, also for the SAME text once as raw(E) and once as E; helper calling Render, partial inside contentFor, block helper inside a partial; a helper whose parameter is template.HTML (a plain string may be rejected, never trusted); plush's own debug() helper, whose argument is text) plus whole-collection sinks ([]string, []interface{} emitted whole; for over []string, []interface{}, [2]string, map[string]string, slice of structs, []template.HTML, []HTMLer, map[string]template.HTML, maps and hash literals whose KEY is the payload, an Iterator, [][]string; collections from a field and from helpers emitted whole; mixed trusted / untrusted collections; weak: []named string, []*string). (E) every base x sink with no wrap, every single wrap x sink from a variable, for all fixed payloads and tags; (N) nests: the output tag (bare or with text) inside up to 4 block constructs nested in any order - if, else, slice / map / Iterator loop, function body, block helper, contentFor+contentOf, contentOf default block, partial - each with or without text next to its content: exhaustive to depth 2, random to depth 4 with random bases and wraps; (H) histories: one parsed template (plush.Template executed repeatedly, and plush.Render with the template cache on, which also re-uses parsed partials) executed 2-5 times while the payload's type and text change, every sink x 3 payloads x 5 tag sequences, and random; (R) random compositions to depth 4. Oracle: entity-decoding matcher over the whole output: plain payloads only entity-encoded and decoding back to the payload, trusted payloads byte-identical, each exactly once. Non-trivial = payload contains a special and the route is not the bare variable at top level; distinct by (route, tag, payload); for histories an execution after the first whose payload contains a special."
 
 func setup(t *testing.T) *vk.Run {
 	r := vk.Start(t, "C01", rule,
